@@ -10,6 +10,7 @@ import itertools
 
 import numpy as np
 from rdkit import Chem
+from rdkit.Chem import rdMolTransforms  # noqa: F401
 
 from vp.lib import geom, gl, oracle, rdk
 from vp.props import C07, C12
@@ -19,9 +20,14 @@ FILES = ["src/stereomolgraph/rdmol2graph.py", "src/stereomolgraph/xyz2graph.py",
 FUNCTIONS = ["RDMol2StereoMolGraph.smg_from_rdmol (tag / label tables)", "_rd_tetrahedral", "handedness", "_tetrahedral_from_coords", "_square_planar_from_coords",
              "_trigonal_bipyramidal_from_coords", "_octahedral_from_coords", "_planar_bond_from_coords", "StereoMolGraph.from_geometry"]
 BOUNDS = {"quick": "single centre of class Tet / SP / TBP / Oct with pairwise distinct monoatomic ligands: every placement for Tet/SP, strided for TBP/Oct; 6 bond insertion orders; "
-                   "4 cube rotations x reflection; 3 noise patterns (eps 0.03 A); one double bond XYC=CZW: both isomers, all substituent placements",
-          "thorough": "all placements of TBP, 180 of Oct; 24 insertion orders; 6 noise patterns"}
-OUTSIDE = ("embedded conformers of larger organic molecules, ring centres, adjacent centres, removal of conformational PlanarBonds (RDKit embedding / whole-molecule behaviour); "
+                   "4 cube rotations x reflection; 3 noise patterns (eps 0.03 A); one double bond XYC=CZW: both isomers, all substituent placements; "
+                   "embedded_molecules: 40 organic molecules (C, H, N, O, S, halogens; 0-3 tetrahedral centres, 0-2 stereogenic double bonds, ring double bonds in 3..6-rings, "
+                   "aromatic ring, amide, sulfone, ammonium) x every stereoisomer RDKit enumerates (96 cases) x 3 ETKDG seeds x up to 3 atom renumberings, converter options "
+                   "stereo_complete=True, lone_pair_stereo=False, resonance=True (those of the repository's own consistency test)",
+          "thorough": "all placements of TBP, 180 of Oct; 24 insertion orders; 6 noise patterns; embedded_molecules with 12 seeds x 6 renumberings"}
+OUTSIDE = ("organic molecules other than the 40 listed ones (96 stereoisomers), other embedding seeds; seeds for which neither the raw ETKDG conformer nor its force-field relaxed "
+           "version passes the independent admissibility oracle (bond / contact distances with margin, non-flat four-coordinate atoms, planar double-bond frames) are skipped: "
+           "259 of 6912 in the thorough tier, all of them substituted cyclopropenes; "
            "all-real-coordinates version of the sign conventions (engine B) not built")
 ASSUMPTIONS = ["RDKit's AssignStereochemistryFrom3D is the environment's ground truth for the annotation of a 3-D arrangement"]
 
@@ -102,6 +108,142 @@ def dbond(sub_pl, ez, oi, rot, mirror, noise):
     return None
 
 
+# ---------------------------------------------------------------------------------------------------------------------------------------------
+# whole organic molecules: annotation graph vs graph perceived from an embedded conformer (first sentence of the property)
+FLAT = ["FC(Cl)Br", "CC(O)CC", "CC(N)C(=O)O", "FC=CCl", "CC=CC", "CC(F)C=CCl", "CC(F)C(Cl)C", "CC(F)C(Cl)C(Br)C", "C1=CC1", "C1=CCC1", "C1=CCCC1", "C1=CCCCC1",
+        "CC1=CC1", "FC1=C(Cl)C1", "CC1CC=CC1", "OC1CCCC1F", "CC1CC1F", "FC1(Cl)CC1Br", "CC(=O)N", "c1ccccc1", "CC=O", "OC(=O)C=CC(=O)O", "CC(Cl)C#N", "FC=CC=CCl",
+        "NC(CS)C(=O)O", "CN(C)C", "CNC=O", "C[N+](C)(C)C", "CS(C)(=O)=O", "ClC(Cl)=C(F)Br", "CC(O)C(F)=CC", "OC1C=CC(F)C1", "CC(Cl)C1=CC1", "FC(Cl)C(F)Cl",
+        "CC(Br)c1ccccc1", "OC(=O)C(O)C(O)C(=O)O", "CC=CC(C)=CC", "C1=CC=CC1", "CSC(C)N", "ClC=CC(F)C=CBr"]
+
+
+def _cases():
+    """(flat SMILES, isomer SMILES) for every stereoisomer RDKit enumerates; deterministic (sorted)"""
+    from rdkit.Chem.EnumerateStereoisomers import EnumerateStereoisomers, StereoEnumerationOptions
+    out = []
+    for flat in FLAT:
+        m = Chem.MolFromSmiles(flat)
+        isos = sorted({Chem.MolToSmiles(x) for x in EnumerateStereoisomers(m, options=StereoEnumerationOptions(unique=True, onlyUnassigned=True))})
+        out.extend((flat, i) for i in isos)
+    return out
+
+
+_CASES = None
+
+
+def cases():
+    global _CASES
+    if _CASES is None:
+        _CASES = _cases()
+    return _CASES
+
+
+def _admissible(m):
+    pt = Chem.GetPeriodicTable()
+    X = m.GetConformer().GetPositions()
+    n = m.GetNumAtoms()
+    r = [pt.GetRcovalent(a.GetAtomicNum()) for a in m.GetAtoms()]
+    for i in range(n):
+        for j in range(i + 1, n):
+            d = float(np.linalg.norm(X[i] - X[j]))
+            if m.GetBondBetweenAtoms(i, j) is not None:
+                if d > 1.12 * (r[i] + r[j]):
+                    return False
+            elif d < 1.28 * (r[i] + r[j]):
+                return False
+    for a in m.GetAtoms():
+        nb = [x.GetIdx() for x in a.GetNeighbors()]
+        if len(nb) == 4:
+            v = [(X[k] - X[a.GetIdx()]) / np.linalg.norm(X[k] - X[a.GetIdx()]) for k in nb]
+            for t in itertools.combinations(range(4), 3):
+                if abs(float(np.linalg.det(np.array([v[t[0]], v[t[1]], v[t[2]]])))) < 0.4:
+                    return False
+    for b in m.GetBonds():      # frame of a formal double bond: every substituent torsion within 15 degrees of 0 / 180
+        if b.GetBondType() == Chem.BondType.DOUBLE:
+            i, j = b.GetBeginAtomIdx(), b.GetEndAtomIdx()
+            for p in (x.GetIdx() for x in b.GetBeginAtom().GetNeighbors() if x.GetIdx() != j):
+                for q in (x.GetIdx() for x in b.GetEndAtom().GetNeighbors() if x.GetIdx() != i):
+                    t = abs(Chem.rdMolTransforms.GetDihedralDeg(m.GetConformer(), p, i, j, q))
+                    if min(t, 180.0 - t) > 15.0:
+                        return False
+    return True
+
+
+SKIPPED = []
+
+
+def embedded(case, seed, ren):
+    """stereo-annotated molecule with explicit H -> (a) real importer on the annotations, (b) RDKit ETKDG embedding with the given seed -> real perception
+    from the coordinates; conformational PlanarBonds (bonds that are not formal double bonds) removed from both; connectivity, every tetrahedral parity,
+    every E/Z (incl. ring double bonds, which the importer takes as cis) must agree: the graphs compare equal"""
+    import random
+    from rdkit.Chem import rdDistGeom
+    from stereomolgraph.coords import Geometry
+    from stereomolgraph.graphs.smg import StereoMolGraph
+    from stereomolgraph.rdmol2graph import RDMol2StereoMolGraph
+    flat, smi = cases()[case]
+    m = Chem.AddHs(Chem.MolFromSmiles(smi))
+    if ren:
+        order = list(range(m.GetNumAtoms()))
+        random.Random(1000 * case + ren).shuffle(order)
+        m = Chem.RenumberAtoms(m, order)
+    if any(lab == "?" for _, lab in Chem.FindMolChiralCenters(Chem.Mol(m), includeUnassigned=True, useLegacyImplementation=True)):
+        return "harness error: stereoisomer with an unassigned centre"
+    if rdDistGeom.EmbedMolecule(m, randomSeed=0xF00D + 17 * seed) != 0:
+        return "harness error: embedding failed"
+    # Raw distance-geometry conformers occasionally have a flattened CH2 group or an H...H contact below the bonding cut-off (6 of 6912 in the build sweep).
+    # Conformer admissibility is decided by an oracle that uses nothing of the code under test (RDKit's covalent radii with a margin on both sides of the
+    # 1.2 x cut-off; every triple of unit bond vectors of a four-coordinate atom spans a volume > 0.4, ideal 0.77; substituent torsions of formal double bonds within 15 degrees of 0 / 180): an inadmissible raw conformer is
+    # replaced by its force-field relaxed version (MMFF94 / UFF); if that is inadmissible too the seed yields no conformer of the kind the property talks about and is skipped.
+    if not _admissible(m):
+        from rdkit.Chem import rdForceFieldHelpers as ff
+        if ff.MMFFHasAllMoleculeParams(m):
+            ff.MMFFOptimizeMolecule(m, maxIters=2000)
+        else:
+            ff.UFFOptimizeMolecule(m, maxIters=2000)
+        if not _admissible(m):
+            SKIPPED.append((case, seed, ren))       # no sensible conformer from this seed (force-field artefact on a strained ring): nothing to compare
+            return None
+    # the embedded conformer must realise the annotated isomer (environment sanity: RDKit's own perception from 3-D gives the same canonical SMILES)
+    m3 = Chem.Mol(m)
+    Chem.AssignStereochemistryFrom3D(m3)
+    if Chem.MolToSmiles(Chem.RemoveHs(m3)) != Chem.MolToSmiles(Chem.RemoveHs(m)):
+        return "harness error: embedded conformer is a different stereoisomer for RDKit"
+    try:
+        g_rd = RDMol2StereoMolGraph(stereo_complete=True, use_atom_map_number=False, lone_pair_stereo=False, resonance=True)(m)
+        els = [a.GetSymbol() for a in m.GetAtoms()]
+        g_3d = StereoMolGraph.from_geometry(Geometry(els, m.GetConformer().GetPositions()))
+    except Exception as e:
+        return f"{smi}: raised {type(e).__name__}: {e}"
+    b_rd, b_3d = {frozenset(b) for b in g_rd.bonds}, {frozenset(b) for b in g_3d.bonds}
+    if b_rd != b_3d:
+        return f"{smi} seed {seed}: connectivity differs: only annotation {sorted(map(sorted, b_rd - b_3d))}, only coordinates {sorted(map(sorted, b_3d - b_rd))}"
+    formal = {frozenset((b.GetBeginAtomIdx(), b.GetEndAtomIdx())) for b in m.GetBonds() if b.GetBondType() == Chem.BondType.DOUBLE and not b.GetIsAromatic()}
+    for g in (g_rd, g_3d):
+        for bb in list(g.bond_stereo):
+            if frozenset(bb) not in formal:
+                g.delete_bond_stereo(bb)
+    s_rd, s_3d = gl.snap(g_rd), gl.snap(g_3d)
+    for a in sorted(set(s_rd["astereo"]) | set(s_3d["astereo"])):
+        d1, d2 = s_rd["astereo"].get(a), s_3d["astereo"].get(a)
+        if d1 is None or d2 is None or d1[0] != d2[0]:
+            return f"{smi} seed {seed} ren {ren}: atom {a}: from annotation {d1}, from coordinates {d2}"
+    for b in sorted(formal, key=sorted):
+        k1 = [k for k in s_rd["bstereo"] if set(k) == set(b)]
+        k2 = [k for k in s_3d["bstereo"] if set(k) == set(b)]
+        d1 = s_rd["bstereo"][k1[0]] if k1 else None
+        d2 = s_3d["bstereo"][k2[0]] if k2 else None
+        if (d1 is None) != (d2 is None):
+            return f"{smi} seed {seed} ren {ren}: double bond {sorted(b)}: from annotation {d1}, from coordinates {d2}"
+        rb = m.GetBondBetweenAtoms(*sorted(b))
+        if rb.GetStereo() in (Chem.BondStereo.STEREOZ, Chem.BondStereo.STEREOE) and d1 is not None and d1[2] is not None and d2[2] is not None and not oracle.desc_equal(d1, d2):
+            return f"{smi} seed {seed} ren {ren}: double bond {sorted(b)}: E/Z from annotation {d1} != from coordinates {d2}"
+    if not (g_rd == g_3d):
+        return f"{smi} seed {seed} ren {ren}: graphs (conformational PlanarBonds removed) compare unequal: annotation {s_rd['astereo']} {s_rd['bstereo']} | coordinates {s_3d['astereo']} {s_3d['bstereo']}"
+    if hash(g_rd) != hash(g_3d):
+        return f"{smi} seed {seed} ren {ren}: equal graphs with different hashes"
+    return None
+
+
 def plan(tier, seed):
     units = []
     for ki, kn in enumerate(KINDS):
@@ -121,14 +263,21 @@ def plan(tier, seed):
     units.append(Sel(name="double_bond", func="vp.props.C14:dbond",
                      params={"sub_pl": (0, 24), "ez": (0, 2), "oi": (0, 6 if tier == "quick" else 12), "rot": (0, 24), "mirror": "bool", "noise": (0, 3)},
                      pre=["rot in (0, 5, 14, 23)", "noise == 0 or rot == 0", "sub_pl % 2 == 0 or oi == 0"], shard_by=["ez"], timeout=1500, min_shard=16))
+    nc = len(cases())
+    units.append(Sel(name="embedded_molecules", func="vp.props.C14:embedded",
+                     params={"case": (0, nc), "seed": (0, 3 if tier == "quick" else 12), "ren": (0, 3 if tier == "quick" else 6)},
+                     pre=["seed == 0 or ren < 2"] if tier == "quick" else [], shard_by=["seed"], timeout=1500, min_shard=16))
     return units
 
 
 MANIFEST = {
     "text": "Bounded model checking with the real RDKit: z3 enumerates centre class, placement of distinct ligands on the idealised vertices, bond insertion order, cube rotation, "
             "reflection and noise pattern; RDKit assigns CW/CCW, @SP/@TB/@OH labels or Z/E from the 3-D conformer; the descriptor imported from that annotation by the real table "
-            "code must equal the descriptor perceived by the real coordinate code from the same coordinates (real ==, rotation-group oracle), and the graphs must compare equal.",
-    "note": "Trusted: installed RDKit incl. AssignStereochemistryFrom3D (environment), CrossHair path exhaustion, z3. Partial claim: single centres / one double bond; embedded "
-            "organic molecules are outside.",
+            "code must equal the descriptor perceived by the real coordinate code from the same coordinates (real ==, rotation-group oracle), and the graphs must compare equal.  Whole molecules: the solver "
+            "enumerates (stereoisomer, embedding seed, renumbering); the graph imported from the annotations and the graph perceived from the embedded conformer must have the same "
+            "connectivity, the same descriptor class on every atom, the same E/Z on every stereogenic double bond and compare equal (with equal hashes) once PlanarBonds on bonds "
+            "that are not formal double bonds are removed.",
+    "note": "Trusted: installed RDKit incl. AssignStereochemistryFrom3D (environment), CrossHair path exhaustion, z3. Partial claim: single centres / one double bond / the listed organic molecules with "
+            "RDKit ETKDG conformers (RDKit embedding, MMFF/UFF relaxation and EnumerateStereoisomers are environment).",
     "technique": "CrossHair symbolic execution with z3 (solver-enumerated placements / orders / motions, real importer + perception + RDKit per path)",
 }
